@@ -11,10 +11,14 @@
     files                                         -> files idx:<len>:<fnv> dat<i>:<len>:<fnv> … old<i>:<len>:<fnv> …  (sorted by i)
     file idx | file dat <i> | file old <i>        -> ok <bytes> | none
     pos                                           -> pos <maxidxfilepos> <maxdatfilepos> <maxdatfileidx> <queued> <cached>
+    claim                                         -> ok | violated   (did the reply to the last operation satisfy the
+                                                     retention-aware durable-map claim `claimR` of Spec/BlockStoreMap.lean?)
+    lost                                          -> lost <i> …      (ghost FS.lost, sorted)
     senc <bytes>                                  -> ok <bytes>
     sdec <bytes>                                  -> ok <bytes> | err
 -/
 import GocoinV.Model.BlockDB
+import GocoinV.Spec.BlockStoreMap
 import GocoinV.Model.Snappy
 import GocoinV.Base.Sha256
 import GocoinV.Base.Proto
@@ -67,7 +71,7 @@ def parseOp (toks : List String) : Option Op :=
   | ["close"] => some .close
   | _ => none
 
-def stepLine (s : State) (toks : List String) : State × String :=
+def stepLine0 (s : State) (toks : List String) : State × String :=
   match toks with
   | ["reset"] => (init, "ok")
   | ["files"] =>
@@ -100,4 +104,31 @@ def stepLine (s : State) (toks : List String) : State × String :=
       let (s', o) := step env s op
       (s', outStr o)
 
-def main : IO Unit := Proto.serve init stepLine
+/-- the driver also runs the durable-map specification next to the model and evaluates the retention-aware claim
+    (`claimR`) on every operation's reply: `store_refines_map_retention_statement` (OPEN in Props/C16.lean) on this history -/
+structure OSt where
+  s : State := init
+  sp : Spec := {}
+  lastOK : Bool := true
+
+def holdsB : Claim → Out → Bool
+  | .nothing, _ => true
+  | .data b t, out => decide (out = .data b t)
+  | .len n, out => decide (out = .len n)
+
+def stepLine (st : OSt) (toks : List String) : OSt × String :=
+  match toks with
+  | ["reset"] => ({}, "ok")
+  | ["claim"] => (st, if st.lastOK then "ok" else "violated")
+  | ["lost"] => (st, " ".intercalate ("lost" :: ((st.s.fs.lost.eraseDups.toArray.qsort (· < ·)).toList.map toString)))
+  | _ =>
+    match parseOp toks with
+    | some op =>
+      let c := claimR st.s st.sp op
+      let (s', o) := step env st.s op
+      ({ s := s', sp := specStep st.sp op, lastOK := holdsB c o }, outStr o)
+    | none =>
+      let (s', r) := stepLine0 st.s toks
+      ({ st with s := s' }, r)
+
+def main : IO Unit := Proto.serve ({} : OSt) stepLine
